@@ -3,6 +3,6 @@ CONSTANTS
   NMods = 3
   Choices = {1, 2, 4, 5, 6}
   Splits = {0, 2}
-  Scen = {"plain1", "share1", "twice1", "plain2", "twice2", "plain3"}
+  Scen = {"plain1", "share1", "twice1", "plain2", "twice2", "plain3", "plain4"}
 INVARIANT Emit1
 CHECK_DEADLOCK FALSE
